@@ -40,6 +40,7 @@ element		:	^					opLineStart
 			|	simple +?			simple SplitNext
 			|	simple *			SplitNext simple SplitJump
 			|	simple *?			SplitJump simple Jump
+									or if simple can be empty: SplitJump simple SplitNext
 
 simple		:	.					opAny
 			|	char	 			Char c
@@ -182,17 +183,18 @@ func (co *compiler) literalPrefix() (prefix []byte, allLiteral bool) {
 	return prefix, false
 }
 
-func (co *compiler) regex() {
+// regex returns whether it can match the empty string
+func (co *compiler) regex() (nullable bool) {
 	var patch []int
 	start := len(co.prog)
-	co.sequence()
+	nullable = co.sequence()
 	for co.match("|") {
 		pn := len(co.prog) - start
 		co.insert(start, opSplitNext, pn+6)
 		patch = append(patch, len(co.prog))
 		co.emitOff(opJump, 0)
 		start = len(co.prog)
-		co.sequence()
+		nullable = co.sequence() || nullable
 		co.rightAnchor = false
 	}
 	n := len(co.prog)
@@ -201,15 +203,18 @@ func (co *compiler) regex() {
 		co.prog[i+1] = byte(p >> 8)
 		co.prog[i+2] = byte(p)
 	}
+	return nullable
 }
 
-func (co *compiler) sequence() {
+func (co *compiler) sequence() (nullable bool) {
+	nullable = true
 	for co.si < co.sn && co.src[co.si] != '|' && co.src[co.si] != ')' {
-		co.element()
+		nullable = co.element() && nullable
 	}
+	return nullable
 }
 
-func (co *compiler) element() {
+func (co *compiler) element() (nullable bool) {
 	if co.match(`\A`) || (!co.multiLine && co.match("^")) {
 		co.emit(opStrStart)
 	} else if co.match(`\Z`) || (!co.multiLine && co.match("$")) {
@@ -232,12 +237,14 @@ func (co *compiler) element() {
 	} else if co.match("(?-m)") {
 		co.multiLine = false
 	} else if co.match("(?q)") {
+		start := len(co.prog)
 		co.quoted()
+		return len(co.prog) == start
 	} else if co.match("(?-q)") {
 		// handled by quoted
 	} else {
 		start := len(co.prog)
-		co.simple() // RECURSE
+		nullable = co.simple() // RECURSE
 		pn := len(co.prog) - start
 		// need to match longer first
 		if co.match("??") {
@@ -249,11 +256,18 @@ func (co *compiler) element() {
 		} else if co.match("+?") {
 			co.emitOff(opSplitNext, -pn)
 			co.rightAnchor = false
+			return nullable
 		} else if co.match("+") {
 			co.emitOff(opSplitJump, -pn)
 			co.rightAnchor = false
+			return nullable
 		} else if co.match("*?") {
-			co.emitOff(opJump, -pn-3)
+			if nullable {
+				//  compile x*? as (x+?)?? as per golang.org/issue/46123
+				co.emitOff(opSplitNext, -pn)
+			} else {
+				co.emitOff(opJump, -pn-3)
+			}
 			co.insert(start, opSplitJump, pn+6)
 			co.rightAnchor = false
 		} else if co.match("*") {
@@ -261,8 +275,11 @@ func (co *compiler) element() {
 			co.emitOff(opSplitJump, -pn)
 			co.insert(start, opSplitNext, pn+6)
 			co.rightAnchor = false
+		} else {
+			return nullable
 		}
 	}
+	return true
 }
 
 func (co *compiler) quoted() {
@@ -278,14 +295,15 @@ func (co *compiler) quoted() {
 	}
 }
 
-func (co *compiler) simple() {
+// simple returns whether it can match the empty string
+func (co *compiler) simple() (nullable bool) {
 	switch c := co.next(); c {
 	case '.':
 		co.emit(opAnyNotNL)
 	case '\\':
 		if co.si >= co.sn {
 			co.emitChar('\\')
-			return
+			return false
 		}
 		switch c := co.next(); c {
 		case 'd':
@@ -316,7 +334,7 @@ func (co *compiler) simple() {
 		if leftCount < 10 {
 			co.emit(opSave, 2*byte(leftCount))
 		}
-		co.regex() // RECURSE
+		nullable = co.regex() // RECURSE
 		if leftCount < 10 {
 			co.emit(opSave, 2*byte(leftCount)+1)
 		}
@@ -324,6 +342,7 @@ func (co *compiler) simple() {
 	default:
 		co.emitChar(c)
 	}
+	return nullable
 }
 
 func (co *compiler) charClass() {
